@@ -25,7 +25,7 @@ LEVEL = "exploration"
 RULE = (
     "case kinds: (history) 1-25 operations {subscribe a callback to 1-3 of 6 message types with a script of re-entrant "
     "actions (on its k-th invocation: unsubscribe itself | unsubscribe callback X | subscribe a new callback), "
-    "unsubscribe, incoming frame (one of the 6 types with a generated valid payload | a known type with a payload the "
+    "unsubscribe, an internal request/response waiter on one of the types, incoming frame (one of the 6 types with a generated valid payload | a known type with a payload the "
     "protobuf runtime rejects | an undefined type number), PingRequest, GetTimeRequest, DisconnectRequest}, consecutive "
     "frames optionally coalesced into one chunk, plaintext|noise; (types) type numbers 0, every defined id, last+1, "
     "sampled ids up to 65535 and large varints (thorough: all 0..65535) with empty and generated payloads; (silent) "
@@ -197,6 +197,11 @@ def run_case(case: dict) -> CaseResult:
                 if r is not None:
                     r()
                 registry.pop(op["id"], None)
+            elif o == "wait":
+                # an internal request/response waiter registered on one of the types (as device_info() etc. do)
+                classes.add("waiter")
+                env.spawn(f"wait{i}", sess.conn.send_message_await_response(pb.PingRequest(), by_id[op["type"]], 200.0))
+                expected_writes.append(7)
             elif o == "peer":
                 classes.add("peer_request")
                 what = op["what"]
@@ -410,6 +415,8 @@ def _history(draw, tier):
             script = [a for a in script if not (a["at"] in seen or seen.add(a["at"]))]
             ops.append({"op": "sub", "id": cid, "types": sorted(set(draw(st.lists(st.sampled_from(TYPES6), min_size=1, max_size=3)))), "script": script})
             ids.append(cid)
+        elif r == 4 and draw(st.booleans()):
+            ops.append({"op": "wait", "type": draw(st.sampled_from(TYPES6))})
         elif r == 4:
             ops.append({"op": "unsub", "id": draw(st.sampled_from(ids))})
         elif r <= 10:
@@ -470,6 +477,11 @@ def enumerated(tier):
     for t in (0, 124, 200, 65535):
         yield {"kind": "types", "noise": t != 200, "frames": [[t, {"hex": "08011001"}], [26, {"key": 1, "state": True}], [t, {"hex": "ffff"}]]}
         yield {"kind": "silent", "K": 2.0, "noise": False, "frames": [[o, t] for o in (33, 129, 257, 385, 513, 641)]}
+    # two request/response waiters and a plain subscriber on one type, answers coalesced in one chunk
+    for noise in (False, True):
+        for n in (2, 3):
+            yield {"kind": "history", "noise": noise, "ops": [{"op": "sub", "id": "c0", "types": [26], "script": []}, {"op": "wait", "type": 26}, {"op": "wait", "type": 26}]
+                   + [{"op": "msg", "type": 26, "payload": {"key": k}, "merge": k < n - 1} for k in range(n)] + [{"op": "msg", "type": 25, "payload": {"key": 9}}, {"op": "msg", "type": 26, "payload": {"key": 5}}]}
     for what in ("ping", "gettime", "discreq"):
         for noise in (False, True):
             for login in (False, True):
